@@ -9,11 +9,11 @@ func init() {
 func checkC09(p *Prog, r *Report) {
 	ls := BuildLockset(p, "spine", "model")
 	r.Rule("R1", "the look-up that decides the insertion of a binding and the insertion share one critical section; the single-binding look-up is present")
-	absenceThenInsert(p, ls, r, "R1", "BindingManager.bindingEntries", true, 1)
+	absenceThenInsert(p, ls, r, "R1", F("BindingManager.bindingEntries"), true, 1)
 	r.Rule("R2", "RemoveBinding keeps an entry ⇔ ¬(client address ∧ server feature equal); the per-entity removal keeps ⇔ ¬(client device ∧ client entity equal)")
-	applyRetain(p, r, "R2", "spine", "BindingManager", "RemoveBinding", retainSpec{Field: "BindingManager.bindingEntries",
+	applyRetain(p, r, "R2", "spine", "BindingManager", "RemoveBinding", retainSpec{Field: F("BindingManager.bindingEntries"),
 		Required: map[string]string{"client.address": "=ClientFeature.Address()", "server.feature": "=ServerFeature"}})
-	applyRetain(p, r, "R2", "spine", "BindingManager", "RemoveBindingsForEntity", retainSpec{Field: "BindingManager.bindingEntries",
+	applyRetain(p, r, "R2", "spine", "BindingManager", "RemoveBindingsForEntity", retainSpec{Field: F("BindingManager.bindingEntries"),
 		Required: map[string]string{"client.device": "ClientFeature.Device().Ski()|ClientFeature.Address().Device", "client.entity": "ClientFeature.Address().Entity"}})
 	r.Rule("R2m", "RemoveBinding replaces the registry only if an entry was removed and reports an error otherwise")
 	removeMissRule(p, ls, r, "R2m", bindMgr)
